@@ -19,9 +19,10 @@ CONSTANTS
   HbFilterDirect = FALSE
   CutAtGE = TRUE
   SendsGraft = TRUE
-  JoinFilterDirect = FALSE
+  BubbleToD = TRUE
+  JoinFilterDirect = TRUE
   GraftNeedsStream = FALSE
-  AllowDirectInFanout = FALSE
+  AllowDirectInFanout = TRUE
   AllowHalf = FALSE
 PROPERTY P_C07_Additions
 VIEW View
